@@ -139,7 +139,11 @@ pub fn run_c03(tier: Tier) {
     // analysis state machine
     let comp = a_comp();
     c.part(describe_alphabet(&comp));
-    string_sweep("C03 components", &comp, 0, tier.pick(3, 4), corners.clone(), None, c03_eval);
+    string_sweep("C03 components", &comp, 0, 2, all.clone(), None, c03_eval);
+    string_sweep("C03 components", &comp, 3, 3, tier.pick(corners.clone(), edges.clone()), None, c03_eval);
+    if tier == Tier::Thorough {
+        string_sweep("C03 components", &comp, 4, 4, corners.clone(), None, c03_eval);
+    }
     if c.has_violations() {
         return;
     }
@@ -242,7 +246,7 @@ pub fn run_c06(tier: Tier) {
     }
     let small = Alphabet::new(
         "A_comp_small",
-        &["@a{1}", "@&a{2}", "@A", "\n\n", "#p", "#&p", "\n= s\n", "@&(~1)d{}", "@&(=1)s{}", "\n> n\n\n", "\n>> [mode]: steps\n", "\n>> [mode]: components\n", "\n>> [mode]: all\n", "\n>> [duplicate]: ref\n", "@+a", "\\"],
+        &["@a{1}", "@&a{2}", "@A", "\n\n", "#p", "#&p", "\n= s\n", "@&(~1)d{}", "@&(=1)s{}", "\n> n\n\n", "\n>> [mode]: steps\n", "\n>> [mode]: components\n", "\n>> [mode]: all\n", "\n>> [duplicate]: ref\n", "@+a", "\\", "\n>> [mode]: text\n", " text "],
     );
     c.part(describe_alphabet(&small));
     string_sweep("C06 components (reduced alphabet)", &small, depth + 1, tier.pick(5, 6), corners.clone(), None, c06_check);
